@@ -112,6 +112,13 @@ def p_C04(tier, seed):
     return f
 
 
+def p_C10(tier, seed):
+    n, mp = scope(tier, (3, 1), (4, 1))
+    ms = scope(tier, {"Items": 4, "MaxP": 1, "MaxFaults": 1, "MaxK": 4, "MaxAfter": 2, "MaxSize": 4},
+               {"Items": 4, "MaxP": 1, "MaxFaults": 2, "MaxK": 5, "MaxAfter": 3, "MaxSize": 4})
+    return engines.engine_D("C10", ["pq", "dpq"], n, mp, tier, seed, model_scope=ms)
+
+
 def p_C11(tier, seed):
     n, mp = scope(tier, (4, 2), (5, 2))
     wit = ["contents", "sorted:pop", "sorted:pop_min", "sorted:pop_max"]
@@ -413,7 +420,7 @@ def p_C17(tier, seed):
         after = [{"op": "push", "k": keys[-1], "r": maxp}, {"op": pm}, {"op": "push", "k": "z", "r": 0}, {"op": "remove", "k": keys[0]}]
         out = []
         for op in ("reserve", "reserve_exact", "try_reserve", "try_reserve_exact"):
-            for a in AMOUNTS:
+            for a in AMOUNTS + [2, 3, 4, 5]:
                 # a big but representable request makes the infallible variants abort in the allocator
                 # (out of memory is the environment, not the crate): only the try_ variants get those
                 if a == "2^45" and not op.startswith("try"):
@@ -422,7 +429,8 @@ def p_C17(tier, seed):
         out.append([{"op": "shrink_to_fit"}] + after)
         out.append([{"op": "reserve", "n": 100}, {"op": "shrink_to_fit"}] + after)
         return out
-    f = engines.engine_A("C17", ["pq", "dpq"], n, mp, lambda p: False, ["contents", "sorted:pop", "sorted:pop_max"], extra_probes=extra)
+    # executed on the queue the history built (a clone would have exact-fit capacities)
+    f = engines.engine_A("C17", ["pq", "dpq"], n, mp, lambda p: False, ["contents", "sorted:pop", "sorted:pop_max"], tails=extra)
     # constructors with capacity, and capacity operations interleaved anywhere in random histories
     import random
     rng = random.Random(seed)
@@ -433,9 +441,9 @@ def p_C17(tier, seed):
             mixed = [{"op": "new", "q": 0, "how": rng.choice(["with_capacity", "with_capacity_and_default_hasher"]),
                       "cap": rng.choice([0, 1, 10, 1000])}]
             for st in steps:
-                if rng.random() < 0.15:
-                    op = rng.choice(["reserve", "reserve_exact", "try_reserve", "try_reserve_exact", "shrink_to_fit"])
-                    mixed.append({"op": op, "n": rng.choice(AMOUNTS if op.startswith("try") else [0, 1, 7, 100])})
+                if rng.random() < 0.3:
+                    op = rng.choice(["reserve", "reserve", "reserve_exact", "try_reserve", "try_reserve_exact", "shrink_to_fit"])
+                    mixed.append({"op": op, "n": rng.choice(AMOUNTS if op.startswith("try") else [0, 1, 1, 2, 3, 5, 7, 100])})
                 mixed.append(st)
             cases.append({"case": [kind, "cap", i], "kind": kind, "hasher": "std", "universe": keys, "steps": mixed,
                           "probes": [], "wit": []})
@@ -494,6 +502,8 @@ PROPS = {
             "relevant": lambda fl: True},
     "C18": {"run": p_C18, "level": "model_checking",
             "relevant": lambda fl: bool(set(fl["tags"]) & (ORDER_TAGS | CONTENT_TAGS | SAFETY_TAGS)) and fl["cause_op"] not in BULK},
+    "C10": {"run": p_C10, "level": "model_checking", "aborts": True,
+            "relevant": lambda fl: "drop_balance" in fl["tags"]},
     "C11": {"run": p_C11, "level": "model_checking",
             "relevant": lambda fl: fl["cause_op"] in PUSHDIR},
     "C12": {"run": p_C12, "level": "model_checking",
